@@ -1,11 +1,11 @@
 package main
 
 import (
-	"go/constant"
-	"sort"
 	"fmt"
+	"go/constant"
 	"go/token"
 	"go/types"
+	"sort"
 
 	"golang.org/x/tools/go/ssa"
 )
